@@ -27,6 +27,11 @@ pub mod unit;
 mod validate;
 pub mod value;
 
+/// Verification hooks (only with `--cfg metrique_verif`)
+#[cfg(metrique_verif)]
+#[doc(hidden)]
+pub mod verif;
+
 #[cfg(feature = "test-util")]
 #[doc(hidden)]
 pub use tokio as __tokio;
